@@ -87,6 +87,11 @@ def run(P, rep, tier):
     from . import c03 as _c03
 
     rep.attempt(_c03.r3_name_language, P, rep, ctx)
+    # deleting / replacing a record's files touches that record's files only (sink ownership and provenance of C02.R1 / R2)
+    from . import c02 as _c02
+
+    rep.attempt(_c02.r1_sinks, P, rep, ctx, False)
+    rep.attempt(_c02.r2_provenance, P, rep, ctx)
     rep.floor("C10.R1", 6)
     rep.floor("C10.R2", 5)
     rep.floor("C10.R3", 3)
